@@ -1858,7 +1858,10 @@ func c17r8(c *Ctx) {
 // after the loop) an incoming value from inside the loop that derives from the iteration's key or element is reported,
 // except commutative accumulation (x = x OP f(elem) for +,|,&,^,* on numbers / bools) and min/max selection
 // (assignment under a comparison of the same variable with the candidate).
-var c17r9Exceptions = map[string]string{}
+var c17r9Exceptions = map[string]string{
+	"pilot/pkg/model.mostSpecificHostWildcardMatch|matchValue": "selection of the most specific wildcard among the map KEYS with host.MoreSpecific, which is a total order on distinct names (wildcard-ness, length, then alphabetical): the winner does not depend on the visiting order",
+	"(*pilot/pkg/model.PushContext).ServiceForHostname|first match returned": "fallback for a proxy without SidecarScope, documented as undefined in the code; every connected proxy has a SidecarScope before generation (computeProxyState), so generation never takes this branch",
+}
 
 func c17r9(c *Ctx) {
 	p := c.P
@@ -1868,9 +1871,17 @@ func c17r9(c *Ctx) {
 		p.Func(pkgCore, "ConfigGeneratorImpl", "BuildNameTable"), p.Func(pkgXds, "EdsGenerator", "buildEndpoints"),
 		p.Func(pkgXds, "DiscoveryServer", "pushXds"), p.Func(pkgXds, "DiscoveryServer", "pushDeltaXds"),
 	}
+	// ... and the snapshot-building graph: what it selects is what every generation starts from
+	entries = append(entries, p.Func(pkgModel, "PushContext", "createNewContext"), p.Func(pkgModel, "PushContext", "updateContext"),
+		p.Func(pkgXds, "DiscoveryServer", "computeProxyState"))
 	reach := p.CG().Reach(entries, nil)
 	armed := map[string]bool{}
-	for _, pk := range []string{pkgEndpoints, pkgRoute, pkgXds, pkgCore, "pilot/pkg/networking/grpcgen", "pilot/pkg/networking/plugin/authn", "pilot/pkg/security/authz/builder", "pkg/dns/server", "pilot/pkg/networking/util", "pilot/pkg/networking/core/envoyfilter", "pilot/pkg/networking/core/extension", "pilot/pkg/networking/core/loadbalancer", "pilot/pkg/security/authn", "pilot/pkg/security/authz/model"} {
+	for _, e := range strings.Split(os.Getenv("VERIF_C17R9_EXTRA"), ",") {
+		if e != "" {
+			armed[istioMod+"/"+e] = true
+		}
+	}
+	for _, pk := range []string{pkgEndpoints, pkgRoute, pkgXds, pkgCore, "pilot/pkg/networking/grpcgen", "pilot/pkg/networking/plugin/authn", "pilot/pkg/security/authz/builder", "pkg/dns/server", "pilot/pkg/networking/util", "pilot/pkg/networking/core/envoyfilter", "pilot/pkg/networking/core/extension", "pilot/pkg/networking/core/loadbalancer", "pilot/pkg/security/authn", "pilot/pkg/security/authz/model", pkgModel} {
 		armed[istioMod+"/"+pk] = true
 	}
 	var fns []*ssa.Function
@@ -1947,18 +1958,26 @@ func c17r9(c *Ctx) {
 				}
 				return walk(v, 0)
 			}
-			if os.Getenv("VERIF_C17R9_FIRSTWINS") != "" { // development: census of "first match in map order" returns
-				for _, b := range fn.Blocks {
-					if !l.Body.Dominates(b) {
+			// "first match in map order": a return from inside the loop of a value taken from the current key / element
+			for _, b := range fn.Blocks {
+				if !l.Body.Dominates(b) {
+					continue
+				}
+				r, ok := b.Instrs[len(b.Instrs)-1].(*ssa.Return)
+				if !ok {
+					continue
+				}
+				for _, rv := range r.Results {
+					if !derives(rv) {
 						continue
 					}
-					if r, ok := b.Instrs[len(b.Instrs)-1].(*ssa.Return); ok {
-						for _, rv := range r.Results {
-							if derives(rv) {
-								fmt.Fprintf(os.Stderr, "FIRSTWINS %s @%s\n", stableFnName(fn), p.Fset.Position(r.Pos()))
-							}
-						}
+					key := stableFnName(fn) + "|first match returned"
+					if why, ok := c17r9Exceptions[key]; ok {
+						c.Infof("exception %s: %s", key, why)
+						continue
 					}
+					c.Check("no first-match-wins under a map range: "+key, r.Pos(), false,
+						"a value taken from the current key / element is returned from inside a range over a map: when more than one entry qualifies, which one is returned is decided by map iteration order, so what is generated from it differs from generation to generation and between istiod instances for the same configuration")
 				}
 			}
 			for _, hi := range l.Header.Instrs {
